@@ -54,7 +54,8 @@ ASSUMPTIONS = ["the counterparty answers a ResendRequest synchronously with one 
                "no SessionConfig, not `reliable`, pm_thread, always_seqnum_assign off, enforce_compids on; correctly framed input",
                "trailing lost messages (nothing transmitted after them) are not owed: the session cannot know about them yet"]
 RULE = ("scenarios (coq/C20/Scenario.v): START (initiator/acceptor; file/memory/no persister; sometimes a receive number "
-        "argument with the counterparty starting at, or above, that number), the counterparty's Logon, then transmissions "
+        "argument with the counterparty starting at, or above, that number), the counterparty's Logon (ResetSeqNumFlag absent / =N / =Y on the first connection; also after every restart, crossed "
+        "with carried-over numbers), then transmissions "
         "(application D/F/8/j, Heartbeat, TestRequest, Reject, the counterparty's own ResendRequest for the session's messages, an "
         "orderly Logout, an unsolicited SequenceReset-GapFill) of which runs of 1..4 are LOST, the session's own sends, "
         "clock steps, restarts (file: numbers recovered; memory/none: forgotten, so the counterparty's Logon is above "
@@ -184,7 +185,16 @@ class Scn:
         self.pn += 1
 
     def logon(self):
-        self.acts.append("LOGON")
+        """the counterparty's Logon: ResetSeqNumFlag (141) absent / =N explicitly / =Y (only on the very first connection
+        of a counterparty that starts at 1: it restarts its numbering)"""
+        r = self.rng.random()
+        first = not any(a.startswith("LOGON") for a in self.acts)
+        if r < 0.4:
+            self.acts.append("LOGON N")
+        elif r < 0.5 and first and self.pn == 1:
+            self.acts.append("LOGON Y")
+        else:
+            self.acts.append("LOGON")
         self.pn += 1
 
     def decide(self, bits):
